@@ -572,5 +572,10 @@ func (this *partition) isOnNode(nodeId uint64) bool {
 
 func (this *partition) randomNodeId() uint64 {
 	nodeIds := this.nodeIds()
+	if len(nodeIds) == 0 {
+		// No replica at the moment (the only one has left, its replacement is not
+		// assigned yet). No node has id 0: the caller's dial fails with an error
+		return 0
+	}
 	return nodeIds[rand.Intn(len(nodeIds))]
 }
